@@ -87,7 +87,7 @@ const M32: u64 = 1 << 32;
 fn cdist(a: u32, b: u32) -> u64 { (b as u64 + M32 - a as u64) % M32 }
 fn in_win(nxt: u32, wnd: u16, n: u32) -> bool { cdist(nxt.wrapping_sub(1), n) < wnd as u64 + 1 }
 
-//# id=is_seq_ok.rfc9293_table6 props=C17,C01 kind=complete pair=tcb.Tcb.is_seq_ok.rfc9293_table6,tcb.Tcb.is_in_rcv_window.window_with_left_slack
+//# id=is_seq_ok.rfc9293_table6 fns=Tcb::is_seq_ok+Tcb::is_in_rcv_window props=C17,C01 kind=complete pair=tcb.Tcb.is_seq_ok.rfc9293_table6,tcb.Tcb.is_in_rcv_window.window_with_left_slack
 // segment acceptability (RFC 9293 Table 6 with one octet of slack at the left edge) over the full scalar domain
 #[cfg_attr(kani, kani::proof)]
 #[cfg_attr(vx_replay, test)]
